@@ -58,8 +58,11 @@ type structV struct {
 	To      string `xml:"to,attr,omitempty"`
 	Type    string `xml:"type,attr,omitempty"`
 	Lang    string `xml:"http://www.w3.org/XML/1998/namespace lang,attr,omitempty"`
-	Body    string `xml:"body,omitempty"`
-	Ext     *extV  `xml:"urn:verif:ext ext"`
+	// Note is written as a comment in front of the element's children: what
+	// becomes of the comment is not demanded, the children after it are
+	Note string `xml:",comment"`
+	Body string `xml:"body,omitempty"`
+	Ext  *extV  `xml:"urn:verif:ext ext"`
 }
 
 // marshalerV implements xml.Marshaler.
@@ -217,7 +220,29 @@ func (g *gen) plainTop(marker string) *elem {
 		e.Attrs = append(e.Attrs, attr("id", "")) // not a stanza: must be left alone
 	}
 	e.Kids = genKids(g.r, g.streamNS, 1)
+	if g.r.Intn(5) == 0 && !emptyUnderForeign(e, nsTop) && !hasUnqualifiedKid(e) {
+		// the form (*xml.Decoder).RawToken relays, for an element that is not a
+		// stanza: the name unresolved, its namespace declared by an ordinary
+		// xmlns attribute
+		e.Attrs = append(e.Attrs, attr("xmlns", e.Name.Space))
+		e.Name.Space = ""
+		if g.c != nil {
+			g.c.Count("non_stanzas_in_raw_token_form_unresolved_name_plus_xmlns_attribute", 1)
+		}
+	}
 	return e
+}
+
+// hasUnqualifiedKid: a direct child without a namespace of its own (it would
+// have to inherit from a parent whose own namespace is only declared by an
+// attribute: no single reading).
+func hasUnqualifiedKid(e *elem) bool {
+	for _, k := range e.Kids {
+		if c, ok := k.(*elem); ok && c.Name.Space == "" {
+			return true
+		}
+	}
+	return false
 }
 
 func sizeClass(e *elem) int {
@@ -264,6 +289,12 @@ func (g *gen) structFor(local, ns, typ, marker, id string) (structV, *xmltree.No
 	}
 	if r.Intn(2) == 0 {
 		v.Body = bigText(r)
+	}
+	if r.Intn(4) == 0 {
+		v.Note = " a note from the application "
+		if g.c != nil {
+			g.c.Count("marshaled_values_with_a_comment_before_their_children", 1)
+		}
 	}
 	if r.Intn(2) == 0 {
 		v.Ext = &extV{A: fillers[r.Intn(len(fillers))], Text: fillers[r.Intn(len(fillers))]}
